@@ -450,7 +450,7 @@ impl<'a> Gen<'a> {
 }
 
 pub fn gen_history(rng: &mut Rng, kind: &str, invalid: bool, thorough: bool) -> (&'static str, Vec<Step>) {
-    let usz = *rng.pick(&[4usize, 6, 6, 6, 7, 8]);
+    let usz = *rng.pick(&[4usize, 6, 6, 6, 7, 8, 6, 7, 8, 6, 10, 12]);   // rarely more live arguments than the oracle judges (replay tie only above 10)
     let universe: Vec<usize> = (1..=usz).collect();
     // one history in twelve is LONG (the event buffer of the buffered encoders, the variable tables and the
     // SAT session keep growing over a solver's life: length-dependent slips need more than 64 buffered events)
